@@ -18,6 +18,11 @@
    - `uprobes`: requests the Go evaluator of the harness (lib/c1819 RunAuth) ran through those
      parsed rules, with its verdict; `eval_rules` must give the same verdict: the evaluator
      the oracle relies on is tied to the semantics the theorems are about;
+   - `uused`: before every UpdateHostConfig / UpdateBackendConfig call, also after the changes of
+     the earlier calls were committed (UCommit: the instance update of a real controller between
+     two syncs), the set RemoveAuthBackendExcept would be given -- Backends().BuildUsedAuthBackends()
+     plus the names of the host paths, read on the real objects -- must be the names referenced by
+     ALL backends and hosts of the model state (premise of C18_referenced_binds_survive);
    - `uidmaps`: the entries (key of the host path, path id) READ FROM the real
      _back_<id>_idpath__*.map files; whenever the rules of a backend are scoped by path ids
      the maps must have an entry for every path of the backend (`ids_coverb`, the premise of
@@ -29,7 +34,9 @@ Export ListNotations.
 
 Inductive ucall :=
   | UHost (h : N) (hplace : placement) (hurl : option (url_in * N)) (keys : list N)
-  | UBackend (b : N) (ds : list pdecl).
+  | UBackend (b : N) (ds : list pdecl)
+  | UCommit.   (* the instance update between two syncs: files written, changes committed;
+                  from then on the backends processed so far are "untouched" ones *)
 
 Record ustate := {
   s_px : proxy;
@@ -67,7 +74,36 @@ Definition run_call (lua : bool) (s : ustate) (c : ucall) : ustate :=
                    s_backs := filter (fun x => negb (N.eqb (fst x) b)) (s_backs s) |} in
       let '(px', cf) := process_backend lua (fe_of s0) (used_of s0) (s_px s0) ds in
       {| s_px := px'; s_hosts := s_hosts s0; s_backs := s_backs s0 ++ [(b, cf)] |}
+  | UCommit => s
   end.
+
+(* the `used` argument of RemoveAuthBackendExcept as the model computes it when a call
+   starts: the names referenced by ALL the backends and host paths of the state *)
+Definition used_before (s : ustate) (c : ucall) : option (list Z) :=
+  match c with
+  | UHost _ _ _ _ => Some (used_of s)
+  | UBackend b _ =>
+      Some (used_of {| s_px := s_px s; s_hosts := s_hosts s;
+                       s_backs := filter (fun x => negb (N.eqb (fst x) b)) (s_backs s) |})
+  | UCommit => None
+  end.
+
+Fixpoint used_trace (lua : bool) (s : ustate) (cs : list ucall) : list (list Z) :=
+  match cs with
+  | [] => []
+  | c :: r =>
+      match used_before s c with
+      | Some u => u :: used_trace lua (run_call lua s c) r
+      | None => used_trace lua (run_call lua s c) r
+      end
+  end.
+
+Fixpoint insert_z (x : Z) (l : list Z) : list Z :=
+  match l with
+  | [] => [x]
+  | y :: r => if (x <? y)%Z then x :: y :: r else if (x =? y)%Z then y :: r else y :: insert_z x r
+  end.
+Definition set_z (l : list Z) : list Z := fold_right insert_z [] l.
 
 Record ucase := {
   uid : N; ulua : bool; ustart : Z; uend : Z; ucalls : list ucall;
@@ -81,7 +117,8 @@ Record ucase := {
   uxbacks : list (N * (list (N * cors) * list xrule));  (* observed Cors per path; parsed rules *)
   uxfront : list xrule;                           (* parsed, frontend *)
   uprobes : list (N * xreq * bool * verdict);     (* backend (0 = frontend), request, services ok?, Go verdict *)
-  uidmaps : list (N * list (N * N)) }.            (* per backend: the real idpath maps *)
+  uidmaps : list (N * list (N * N));              (* per backend: the real idpath maps *)
+  uused : list (list Z) }.                        (* per host/backend call: the real used set *)
 
 Fixpoint list_eqb {A} (e : A -> A -> bool) (a b : list A) : bool :=
   match a, b with
@@ -190,7 +227,15 @@ Definition ucase_ok (c : ucase) : bool :=
   forallb (fun x : N * (list (N * cors) * list xrule) =>
      negb (uses_ids (snd (snd x))) ||
      let m := match assoc (fst x) (uidmaps c) with Some m => m | None => @nil (N * N) end in
-     ids_coverb m (last_ds (fst x) (ucalls c) []) && nodup_n (map fst m)) (uxbacks c).
+     ids_coverb m (last_ds (fst x) (ucalls c) []) && nodup_n (map fst m)) (uxbacks c) &&
+  (* the premise of C18_referenced_binds_survive: the real `used` set of every call (what
+     Backends.BuildUsedAuthBackends answers plus the names held by the host paths, read when
+     the call starts) is the set of the names referenced by all the backends of the state *)
+  list_eqb (list_eqb Z.eqb)
+    (map set_z (used_trace (ulua c)
+       {| s_px := {| px_start := ustart c; px_end := uend c; px_binds := [] |}; s_hosts := []; s_backs := [] |}
+       (ucalls c)))
+    (map set_z (uused c)).
 
 Definition mismatches (cs : list ucase) : list N :=
   map uid (filter (fun c => negb (ucase_ok c)) cs).
